@@ -7,6 +7,12 @@ from the matched values.
 namespace Ombott.RouteUrl
 open Py Ombott.Router
 
+instance instDecEqExcept {ε α} [DecidableEq ε] [DecidableEq α] : DecidableEq (Except ε α)
+  | .ok a, .ok b => if h : a = b then isTrue (by rw [h]) else isFalse (by intro h'; cases h'; exact h rfl)
+  | .error a, .error b => if h : a = b then isTrue (by rw [h]) else isFalse (by intro h'; cases h'; exact h rfl)
+  | .ok _, .error _ => isFalse (by intro h; cases h)
+  | .error _, .ok _ => isFalse (by intro h; cases h)
+
 /-! ### `joinVals`, `buildUrl` -/
 
 theorem joinVals_append (l1 l2 : List Val) :
@@ -53,9 +59,9 @@ theorem buildUrl_lit_ok {env : FilterEnv} {fenv : FormatEnv} {c : Char} {p : Lis
 theorem buildUrl_tok_ok {env : FilterEnv} {fenv : FormatEnv} {f : Option Fid} {p : List Sym} {v : Val}
     {vs : List Val} {u : Str} :
     buildUrl env fenv (.tok f :: p) (v :: vs) = .ok u ↔
-      ∃ t u', piece env fenv f v = .ok (.str t) ∧ buildUrl env fenv p vs = .ok u' ∧ u = t ++ u' := by
+      ∃ t u', piece env fenv f (litRun p) v = .ok (.str t) ∧ buildUrl env fenv p vs = .ok u' ∧ u = t ++ u' := by
   simp only [buildUrl, urlSpec]
-  cases hp : piece env fenv f v with
+  cases hp : piece env fenv f (litRun p) v with
   | error e => simp [bind, Except.bind]
   | ok prt =>
     cases hs : urlSpec env fenv p vs with
@@ -127,6 +133,19 @@ theorem matchRule_length {env : FilterEnv} {p : List Sym} {path : Str} {vs : Lis
       obtain ⟨_, res, vs', _, h', rfl⟩ := matchRule_tok.mp h
       simp [tokCount, ih h']
 
+/-- a matched path starts with the literal run the pattern starts with -/
+theorem matchRule_litRun_prefix {env : FilterEnv} {p : List Sym} {path : Str} {vs : List Val}
+    (h : matchRule env p path = some vs) : litRun p <+: path := by
+  induction p generalizing path vs with
+  | nil => exact List.nil_prefix
+  | cons s p ih =>
+    cases s with
+    | lit c =>
+      obtain ⟨r, rfl, h'⟩ := matchRule_lit.mp h
+      simp only [litRun]
+      exact List.cons_prefix_cons.mpr ⟨rfl, ih h'⟩
+    | tok f => exact List.nil_prefix
+
 /-! ### stability -/
 
 /-- `b` starts as `a` does: both empty, or the same first character -/
@@ -140,20 +159,21 @@ theorem sameHead_append_left (t : Str) {a b : Str} (h : SameHead a b) : SameHead
   | cons c t => rfl
 
 /-- **`Stable f g`** (DESIGN 6/C19), local form.  `f` is the handler of a wildcard on the text
-that is left, `g` formats and sanity-checks a value: whenever `f` accepts at the head of a
-non-empty `path`, the value can be formatted, and the formatted text `u` followed by *anything
-that starts as the rest of `path` did* is accepted again, with the same value, consuming
-exactly `u`. -/
-def Stable (f : Str → Option FilterRes) (g : Val → Except ErrName Val) : Prop :=
-  ∀ path r, path ≠ [] → f path = some r →
-    ∃ u, g r.val = .ok (.str u) ∧
+that is left; `g nxt` formats a value and sanity-checks it in front of the literal text `nxt`
+that follows the wildcard in the rule.  Whenever `f` accepts at the head of a non-empty `path`
+whose rest starts with `nxt`, the value can be formatted, and the formatted text `u` followed
+by *anything that starts as the rest of `path` did* is accepted again, with the same value,
+consuming exactly `u`. -/
+def Stable (f : Str → Option FilterRes) (g : Str → Val → Except ErrName Val) : Prop :=
+  ∀ path r nxt, path ≠ [] → f path = some r → nxt <+: path.drop r.n →
+    ∃ u, g nxt r.val = .ok (.str u) ∧
       ∀ rest', SameHead (path.drop r.n) rest' →
         u ++ rest' ≠ [] ∧ ∃ r', f (u ++ rest') = some r' ∧ r'.val = r.val ∧ r'.n = u.length
 
 /-- the formatted text starts as the matched text did (so whatever stands *before* this
 wildcard sees the same first character) -/
-def HeadKeep (f : Str → Option FilterRes) (g : Val → Except ErrName Val) : Prop :=
-  ∀ path r u, path ≠ [] → f path = some r → g r.val = .ok (.str u) →
+def HeadKeep (f : Str → Option FilterRes) (g : Str → Val → Except ErrName Val) : Prop :=
+  ∀ path r nxt u, path ≠ [] → f path = some r → g nxt r.val = .ok (.str u) →
     ∀ rest', SameHead (path.drop r.n) rest' → SameHead path (u ++ rest')
 
 /-- `Stable` at a position of a rule, in its exact context: `p'` is what follows the wildcard
@@ -164,7 +184,7 @@ def StableAt (env : FilterEnv) (fenv : FormatEnv) (f : Option Fid) (p' : List Sy
     matchRule env p' (path.drop r.n) = some vs →
     buildUrl env fenv p' vs = .ok rest' →
     matchRule env p' rest' = some vs →
-    ∃ u, piece env fenv f r.val = .ok (.str u) ∧ u ++ rest' ≠ [] ∧
+    ∃ u, piece env fenv f (litRun p') r.val = .ok (.str u) ∧ u ++ rest' ≠ [] ∧
       ∃ r', tokRes env f (u ++ rest') = some r' ∧ r'.val = r.val ∧ r'.n = u.length
 
 /-- every wildcard of the rule is stable where it stands -/
@@ -197,13 +217,13 @@ theorem sameHead_of_headRun {env : FilterEnv} {fenv : FormatEnv} {p : List Sym} 
     | tok f =>
       obtain ⟨hne, res, vs', ht, hm', rfl⟩ := matchRule_tok.mp hm
       obtain ⟨t, u', hp, hb', rfl⟩ := buildUrl_tok_ok.mp hb
-      exact hr.1 path res t hne ht hp u' (ih hr.2 hm' hb')
+      exact hr.1 path res (litRun p) t hne ht hp u' (ih hr.2 hm' hb')
 
 /-- the local notion gives the contextual one when the wildcards that follow keep their heads -/
 theorem stableAt_of_stable {env : FilterEnv} {fenv : FormatEnv} {f : Option Fid} {p' : List Sym}
     (hs : Stable (tokRes env f) (piece env fenv f)) (hr : HeadRun env fenv p') : StableAt env fenv f p' := by
   intro path r vs rest' hne ht hm hb _
-  obtain ⟨u, hg, hu⟩ := hs path r hne ht
+  obtain ⟨u, hg, hu⟩ := hs path r (litRun p') hne ht (matchRule_litRun_prefix hm)
   obtain ⟨h1, h2⟩ := hu rest' (sameHead_of_headRun hr hm hb)
   exact ⟨u, hg, h1, h2⟩
 
